@@ -9,7 +9,7 @@ EXPLANATION = ('Decides from MIR: (R13.1) who-may-call: a vertex enters a tree o
                'written that way: the search interpreted over four scripted connections must return start-root .. goal-root); the ancestor walk '
                'interpreted on a five-vertex tree yields parent first and the root last, included; '
                '(R13.4) every iteration checks the stop flag before sampling and the raised flag reaches only `return Err`; '
-               '(R13.5) conversion keeps every element in order; (R13.6) the predicate gating add_vertex is handed down the call chain unchanged (a wrapper `q == target || pred(q)` is accepted only where every target is already a tree vertex).  (R13.7) tree bookkeeping by interpretation on small trees: add_vertex appends the given configuration without a parent under the next index (also in the spatial index), add_edge(a, b) makes a the parent of b, the extension links the new vertex below the nearest one and reports the new vertex, the repeated extension stops exactly at Trapped / Reached; (R13.8) no integer cast in the tree search narrows a value that is not provably within the target type (tree sizes are not bounded by the iteration count); (R11.5) `collides` of the robot with shape is the query of its body, unchanged.  Step-length bounds and convexity of limits are numerical and not decided.')
+               '(R13.5) conversion keeps every element in order; (R13.6) the predicate gating add_vertex is handed down the call chain unchanged (a wrapper `q == target || pred(q)` is accepted only where every target is already a tree vertex).  (R13.7) tree bookkeeping by interpretation on small trees: add_vertex appends the given configuration without a parent under the next index (also in the spatial index), add_edge(a, b) makes a the parent of b, the extension links the new vertex below the nearest one and reports the new vertex, the repeated extension stops exactly at Trapped / Reached; (R13.8) no integer cast in the tree search narrows a value that is not provably within the target type (tree sizes are not bounded by the iteration count); (R11.5) `collides` of the robot with shape is the query of its body, unchanged; the tree search is given the configured step length and iteration budget of the planner as they are (R13.3 planner/step, planner/budget).  Step-length bounds and convexity of limits are numerical and not decided.')
 NOT_DECIDED = 'step-length bound between consecutive nodes; in-limit interpolation (numerical consequences of the extend formula)'
 ASSUMPTIONS = ['kdtree / Vec operations behave as documented']
 
@@ -388,6 +388,15 @@ def _planner(ctx, prog, dual):
         params = {v: k for k, v in api.items()}
     ctx.require(set(params) >= {'start', 'goal', 'kinematics', 'stop'}, 'plan_rrt hands start, goal, kinematics and stop to the function that calls dual_rrt_connect')
     # start / goal routed positionally
+    # the extension length and the iteration budget are the planner's configured step and budget, as they are
+    tys = [dual.local_ty(k) for k in range(1, dual.arg_count + 1)]
+    for k, (ty, a) in enumerate(zip(tys, args)):
+        a0 = strip(a)
+        if ty in ('N', 'f64', 'usize') and k >= 2:
+            plain = isinstance(a0, tuple) and a0[0] == 'fld' and util.is_param(a0[1], 1)
+            ctx.check(plain, 'R13.3', 'planner/%s' % ('step' if ty != 'usize' else 'budget'), pp.where(bi), pp.path,
+                      'the tree search must be given the planner\'s own %s unchanged' % ('step length (nodes are at most a few of these steps apart)' if ty != 'usize' else 'iteration budget'),
+                      found=show(a0, maxdepth=3))
     ok = _param_of(args[0]) == params.get('start') and _param_of(args[1]) == params.get('goal')
     ctx.check(ok, 'R13.3', 'planner/start-goal', pp.where(bi), pp.path, 'start / goal are not handed to the tree search in this order',
               found='%s, %s' % (show(args[0], maxdepth=3), show(args[1], maxdepth=3)))
